@@ -77,7 +77,8 @@ def _names(no, np_):
 
 
 def _name_strings(mdl, es):
-    return [f'n{mdl.eval(e, model_completion=True).as_long()}' for e in es]
+    # name id 0 is rendered as the empty string (a legal label that is falsy)
+    return [(lambda v: '' if v == 0 else f'n{v}')(mdl.eval(e, model_completion=True).as_long()) for e in es]
 
 
 def unit_ctor(args, prefix=(), max_depth=None):
@@ -106,8 +107,9 @@ def unit_ctor(args, prefix=(), max_depth=None):
         @common.guarded
         def body():
             cx = core.ctx()
-            objs = [SymName(f'o{i}', e) for i, e in enumerate(oe)]
-            props = [SymName(f'p{j}', e) for j, e in enumerate(pe)]
+            # the text of a label is irrelevant to validity -- also when it is the (falsy) empty string
+            objs = [SymName('' if i == 0 else f'o{i}', e) for i, e in enumerate(oe)]
+            props = [SymName('' if j == 0 else f'p{j}', e) for j, e in enumerate(pe)]
             rows = [tuple(core.SymBool(v) if z3.is_bool(v) else core.SymInt(v) for v in row) for row in cellv]
             allnames = oe + pe
             shape_ok = no > 0 and np_ > 0 and nrows == no and all(L == np_ for L in pat)
